@@ -93,9 +93,58 @@ def impl_case(case):
 
 
 def impl_chunk(chunk):
-    res = [impl_case(c) for c in chunk]
+    cov = None
+    if os.environ.get("VERIF_TIE_COVERAGE", "1") == "1":
+        try:
+            import coverage
+            cov = coverage.Coverage(data_file=None, branch=False, include=[str(core.REPO / "mysensors" / "*")])
+            cov.start()
+        except Exception:            # coverage measurement is evidence only, never a reason to fail
+            cov = None
+    try:
+        res = [impl_case(c) for c in chunk]
+    finally:
+        lines = {}
+        if cov is not None:
+            cov.stop()
+            data = cov.get_data()
+            for f in data.measured_files():
+                lines[os.path.basename(f)] = sorted(data.lines(f) or [])
     shutil.rmtree(core.BUILD / "scratch" / f"{os.getpid()}", ignore_errors=True)
-    return res
+    return res, lines
+
+
+def tie_coverage(executed):
+    """Statement coverage of the hand-modelled functions (harness/translate/fingerprints.targets) by the
+    implementation side of this run: {"functions", "statements", "executed", "missed": {function: [lines]}}."""
+    import inspect
+    import coverage
+    from harness.translate import fingerprints
+    cov = coverage.Coverage(data_file=None)
+    stmts = {}
+    out = {"functions": 0, "statements": 0, "executed": 0, "missed": {}}
+    for name, fn in sorted(fingerprints.targets().items()):
+        try:
+            src, first = inspect.getsourcelines(fn)
+            path = inspect.getsourcefile(fn)
+        except (OSError, TypeError):
+            continue
+        base = os.path.basename(path)
+        if path not in stmts:
+            stmts[path] = set(cov.analysis2(path)[1])
+        import ast
+        import textwrap
+        node = ast.parse(textwrap.dedent("".join(src))).body[0]
+        first_stmt = first + node.body[0].lineno - 1                         # decorators and the def line are
+        body = {l for l in stmts[path] if first_stmt <= l < first + len(src)}  # executed at import, not per call
+        # a docstring-only / one-line body still has statements; skip the decorators' lines
+        got = body & set(executed.get(base, ()))
+        out["functions"] += 1
+        out["statements"] += len(body)
+        out["executed"] += len(got)
+        if body - got:
+            out["missed"][name] = sorted(body - got)
+    return out
 
 
 def model_lines(case):
@@ -139,7 +188,12 @@ def run_all(ctx, cases):
     """Returns list of records {case, impl, model, viol, stats}; outputs aligned with case['ops']."""
     jobs = min(16, os.cpu_count() or 4)
     with ProcessPoolExecutor(jobs) as ex:
-        impl = [o for part in ex.map(impl_chunk, chunks(cases, jobs * 2)) for o in part]
+        impl = []
+        executed = {}
+        for part, lines in ex.map(impl_chunk, chunks(cases, jobs * 2)):
+            impl.extend(part)
+            for f, ls in lines.items():
+                executed.setdefault(f, set()).update(ls)
         mlines = [l for part in ex.map(lines_chunk, chunks(cases, jobs * 2)) for l in part]
     model = [None] * len(cases)
     if ctx.model is not None:
@@ -151,6 +205,9 @@ def run_all(ctx, cases):
         raw = [None] * len(cases)
     recs = [{"case": c, "impl": io[0], "viol": io[1], "stats": io[2], "model": mo, "mlines": ml, "mraw": rw}
             for c, io, mo, ml, rw in zip(cases, impl, model, mlines, raw)]
+    ctx.executed_lines = getattr(ctx, "executed_lines", {})
+    for f, ls in executed.items():
+        ctx.executed_lines.setdefault(f, set()).update(ls)
     return recs
 
 
@@ -186,6 +243,11 @@ def run_cases(ctx, res, cases, monitors, scope, tag="gw"):
             elif diff(c, r["impl"], r["model"], ALL):
                 unrelated += 1
     res.extra["unrelated_diffs"] = res.extra.get("unrelated_diffs", 0) + unrelated
+    if getattr(ctx, "executed_lines", None):
+        try:
+            res.extra["tie_statement_coverage_of_hand_modelled_functions"] = tie_coverage(ctx.executed_lines)
+        except Exception as exc:     # evidence only
+            res.extra["tie_statement_coverage_of_hand_modelled_functions"] = {"error": repr(exc)}
     if ctx.model is not None and not ctx.searching and recs:
         k = min(len(recs), 6)
         n, ok, lg = core.coq_crosscheck([r["mlines"] for r in recs[:k]],
